@@ -763,7 +763,7 @@ func (e *Exec) isZapPrivateComp(n string) bool {
 	if strings.HasPrefix(n, "E:") {
 		switch n[2:] {
 		case "bool", "int", "int8", "int16", "int32", "int64", "uint", "uint16", "uint32", "uint64", "uintptr",
-			"float32", "float64", "complex64", "complex128", "string", "__uint8", "time.Duration", "interface__":
+			"float32", "float64", "complex64", "complex128", "string", "__uint8", "time.Duration", "interface__", "fmt.Stringer", "error":
 			// slices of plain values handed to user code (encoders, sinks) are not modified by it:
 			// the same encapsulation rely as for byte slices ([]interface{}: the argument lists of the
 			// sugared API and of fmt - user cores and hooks called back in between do not rewrite them)
